@@ -39,8 +39,8 @@ func TestMain(m *testing.M) { fw.Main(m) }
 // Setting a flag to false makes the round-trip check produce and report the
 // shape again.
 const (
-	avoidKnownDoubleUnaryMinus      = true // SELECT - -1       prints "--1" (a line comment)        roundtrip_reparse_fails:UnaryArithmetic
-	avoidKnownBangBeforeOperator    = true // SELECT ! !a       prints "!!a"; ! :p prints "!:p"      roundtrip_string_differs:UnaryLogic / roundtrip_reparse_fails:UnaryLogic
+	avoidKnownDoubleUnaryMinus      = false // SELECT - -1       prints "--1" (a line comment)        roundtrip_reparse_fails:UnaryArithmetic
+	avoidKnownBangBeforeOperator    = false // SELECT ! !a       prints "!!a"; ! :p prints "!:p"      roundtrip_string_differs:UnaryLogic / roundtrip_reparse_fails:UnaryLogic
 	avoidKnownPositionalPlaceholder = true // SELECT ?          prints "?{1}"                        roundtrip_reparse_fails:Placeholder
 	avoidKnownIgnoreNulls           = true // FIRST_VALUE(a) IGNORE NULLS OVER () prints the keywords inside the parentheses   roundtrip_reparse_fails:AnalyticFunction:ignore_nulls
 	avoidKnownUrlBeforePunctuation  = true // FROM file:./a.csv , t  prints "file:./a.csv, t": the URL token swallows ',' or ')'    roundtrip_reparse_fails:Url
